@@ -426,6 +426,32 @@ where
         }
     }
 
+    fn sweep_setups() -> Vec<RSetup> {
+        let mut v = Vec::new();
+        let mut pts: Vec<T> = Vec::new();
+        for a in T::anchors() {
+            for d in [-2i64, -1, 0, 1, 2] {
+                if let Some(p) = a.offset(d) {
+                    if !pts.contains(&p) {
+                        pts.push(p);
+                    }
+                }
+            }
+        }
+        for &a in &pts {
+            for span in [-1i64, 0, 1, 2, 5] {
+                let Some(b) = a.offset(span) else { continue };
+                for kind in [RKind::Excl, RKind::Incl, RKind::InclByRef, RKind::ExclByRef] {
+                    v.push(RSetup { kind, start: a.to_s(), end: b.to_s() });
+                }
+            }
+            if T::dist(a, T::MAXV) >= 1 {
+                v.push(RSetup { kind: RKind::From, start: a.to_s(), end: a.to_s() });
+            }
+        }
+        v
+    }
+
     fn required_probes() -> &'static [&'static str] {
         if T::WORLD == "ranges_char" {
             &[
